@@ -672,6 +672,18 @@ impl<'a> LeafNodeMut<'a> {
         Ok(())
     }
 
+    /// Verification hook: run the (private) compaction routine directly.
+    #[cfg(kahflane_turdb_verif)]
+    pub fn verif_compact(&mut self) -> Result<()> {
+        self.compact()
+    }
+
+    /// Verification hook: the (private) compaction trigger.
+    #[cfg(kahflane_turdb_verif)]
+    pub fn verif_should_compact(&self) -> bool {
+        self.should_compact()
+    }
+
     pub fn as_ref(&self) -> LeafNode<'_> {
         LeafNode { data: self.data }
     }
